@@ -48,7 +48,7 @@ func init() {
 		shards: func(cfg vlib.Cfg) int { return cfg.N(16, 32) },
 		run:    runC09,
 		rule: "c09.value: PRNG values of the harness schema (nested structs, all integer widths within +-2^53, finite floats, valid-UTF-8 strings incl. YAML-significant and non-ASCII ones, byte slices, string slices, maps, pointers, nil and empty values; record.Meta and a hand-written GenCode type; raw byte slices) x formats {JSON,CBOR,MsgPack,YAML,GenCode,RAW,AUTO} the value is representable in x compression {none,GZIP,AUTO}; " +
-			"c09.http: value x format x Accept header from a media-type grammar (supported, alias, wildcard and unsupported ranges, parameters, q-values, case, optional whitespace), request and response direction; " +
+			"c09.value also: highly compressible values (runs, zero-filled slices, thousands of identical entries; 16 KiB - 1 MiB serialized) with GZIP and AUTO compression in every format; c09.http: responses whose writer already carries Content-Type value(s) before the dump; value x format x Accept header from a media-type grammar (supported, alias, wildcard and unsupported ranges, parameters, q-values, case, optional whitespace), request and response direction; " +
 			"c09.seq: multi-step histories: k values dumped through Dump / DumpIndent / DumpAndCompress / MimeDump / DumpToHTTPRequest / DumpToHTTPResponse, returned slices kept without copying and hashed at once, then more dumps, then every blob re-hashed (a returned slice must never change) and loaded and compared with its own value; a part of the histories with two goroutines dumping concurrently; c09.bytes: truncations / bit flips / splices of valid dumps, identifier-prefixed random bytes, gzip-wrapped garbage, well-formed compressed streams (bare, identified, nested, multi-member, four encodings) around empty / identifier-only / attack / truncated content, decoder length-header attacks, random bytes (<= 4 KiB) into 7 target types through Load, LoadAsFormat, DecompressAndLoad, MimeLoad. " +
 			"distinct = distinct (class,input) pairs; non-trivial = at least one dump succeeded and its load was compared (value/http) or at least one entry point returned (bytes)",
 		finish: func(cfg vlib.Cfg, r *vlib.Report) {
@@ -58,6 +58,8 @@ func init() {
 			r.Floor(r.SeenCount("format_x_compression") >= 21, "format x compression combinations executed: %d of 21", r.SeenCount("format_x_compression"))
 			r.Floor(r.Counter("seq_blobs") >= int64(cfg.N(8000, 60000)), "seq_blobs=%d", r.Counter("seq_blobs"))
 			r.Floor(r.SeenCount("seq_entry_points") >= 6, "dump entry points in multi-step histories: %d of 6", r.SeenCount("seq_entry_points"))
+			r.Floor(r.Counter("compressible_roundtrips_attempted") >= int64(cfg.N(400, 3000)), "compressible_roundtrips_attempted=%d", r.Counter("compressible_roundtrips_attempted"))
+			r.Floor(r.Counter("http_responses_with_preset_content_type") >= int64(cfg.N(2000, 15000)), "http_responses_with_preset_content_type=%d", r.Counter("http_responses_with_preset_content_type"))
 			r.Floor(r.SeenCount("http_paths") >= 3, "http paths executed: %d", r.SeenCount("http_paths"))
 			r.Assume("values are restricted to what every format can represent: valid UTF-8, finite floats, integers within +-2^53 (narrow widths: full range), no pointer to a nil slice/map")
 			r.Assume("RAW contract: Load reports RAW and returns ErrIsRaw; the payload is the bytes after the identifier")
@@ -714,13 +716,14 @@ type c09Subject struct {
 	gen     func(r *vlib.Rand) any
 	fresh   func() any
 	formats []uint8
+	allComp bool // every compression variant in every case
 }
 
 var c09Subjects = []c09Subject{
-	{"struct", func(r *vlib.Rand) any { return c09GenVal(r) }, func() any { return &c09Val{} }, []uint8{dsd.JSON, dsd.CBOR, dsd.MsgPack, dsd.YAML, dsd.AUTO}},
-	{"meta", func(r *vlib.Rand) any { return c09GenMeta(r) }, func() any { return &record.Meta{} }, []uint8{dsd.GenCode}},
-	{"gencode", func(r *vlib.Rand) any { return c09GenG(r) }, func() any { return &c09G{} }, []uint8{dsd.GenCode}},
-	{"gencode-interop", func(r *vlib.Rand) any { return c09GenGInterop(r) }, func() any { return &c09G{} }, []uint8{dsd.GenCode, dsd.JSON, dsd.CBOR, dsd.MsgPack, dsd.YAML, dsd.AUTO}},
+	{"struct", func(r *vlib.Rand) any { return c09GenVal(r) }, func() any { return &c09Val{} }, []uint8{dsd.JSON, dsd.CBOR, dsd.MsgPack, dsd.YAML, dsd.AUTO}, false},
+	{"meta", func(r *vlib.Rand) any { return c09GenMeta(r) }, func() any { return &record.Meta{} }, []uint8{dsd.GenCode}, false},
+	{"gencode", func(r *vlib.Rand) any { return c09GenG(r) }, func() any { return &c09G{} }, []uint8{dsd.GenCode}, false},
+	{"gencode-interop", func(r *vlib.Rand) any { return c09GenGInterop(r) }, func() any { return &c09G{} }, []uint8{dsd.GenCode, dsd.JSON, dsd.CBOR, dsd.MsgPack, dsd.YAML, dsd.AUTO}, false},
 	{"raw", func(r *vlib.Rand) any {
 		switch r.Intn(8) {
 		case 0:
@@ -732,22 +735,68 @@ var c09Subjects = []c09Subject{
 		default:
 			return r.Bytes(r.Range(1, 64))
 		}
-	}, func() any { return &c09Val{} }, []uint8{dsd.RAW}},
+	}, func() any { return &c09Val{} }, []uint8{dsd.RAW}, false},
 }
 
 func c09PickSubject(r *vlib.Rand) *c09Subject {
-	switch x := r.Intn(20); {
-	case x < 12:
+	switch x := r.Intn(80); {
+	case x < 48:
 		return &c09Subjects[0]
-	case x < 14:
+	case x < 56:
 		return &c09Subjects[1]
-	case x < 15:
+	case x < 60:
 		return &c09Subjects[2]
-	case x < 17:
+	case x < 68:
 		return &c09Subjects[3]
-	default:
+	case x < 79:
 		return &c09Subjects[4]
+	default:
+		return &c09Compressible[r.Intn(len(c09Compressible))]
 	}
+}
+
+// Highly compressible values (16 KiB .. 1 MiB serialized, far beyond 100:1 under gzip):
+// every format of these is dumped with GZIP and with AUTO compression in every case.
+func c09CompressibleSize(r *vlib.Rand) int {
+	e := r.Intn(7)
+	if e >= 5 && r.Bool() { // 512 KiB and 1 MiB half as often: they dominate the run time
+		e = r.Intn(5)
+	}
+	return (16 << 10) << uint(e)
+}
+
+func c09GenCompressible(r *vlib.Rand) *c09Val {
+	v := &c09Val{I: 1, S: "compressible", Bo: true}
+	total := c09CompressibleSize(r)
+	switch r.Intn(4) {
+	case 0: // a long run of one character
+		v.S = strings.Repeat(vlib.Pick(r, "a", " ", "0", "é"), total)
+	case 1: // zero-filled (or one-valued) byte slice
+		v.Ba = bytes.Repeat([]byte{vlib.Pick(r, byte(0), 0, 0xff, 'x')}, max(total, 128<<10))
+	case 2: // thousands of identical strings
+		e := vlib.Pick(r, "identical-string", "", "x")
+		v.Sa = make([]string, min(total/16, 50000))
+		for i := range v.Sa {
+			v.Sa[i] = e
+		}
+	default: // thousands of identical struct entries
+		in := c09Inner{N: 1, Str: "same", L: []string{"a", "b"}}
+		v.Ins = make([]c09Inner, min(total/64, 16000))
+		for i := range v.Ins {
+			v.Ins[i] = in
+		}
+	}
+	return v
+}
+
+var c09Compressible = []c09Subject{
+	{"compressible-struct", func(r *vlib.Rand) any { return c09GenCompressible(r) }, func() any { return &c09Val{} }, []uint8{dsd.JSON, dsd.CBOR, dsd.MsgPack, dsd.YAML, dsd.AUTO}, true},
+	{"compressible-gencode", func(r *vlib.Rand) any {
+		return &c09G{A: 1, S: strings.Repeat("g", c09CompressibleSize(r)/4), B: make([]byte, c09CompressibleSize(r))}
+	}, func() any { return &c09G{} }, []uint8{dsd.GenCode, dsd.JSON, dsd.CBOR, dsd.MsgPack}, true},
+	{"compressible-raw", func(r *vlib.Rand) any {
+		return bytes.Repeat([]byte{vlib.Pick(r, byte(0), 'z')}, c09CompressibleSize(r))
+	}, func() any { return &c09Val{} }, []uint8{dsd.RAW}, true},
 }
 
 func c09Resolved(f uint8) uint8 {
@@ -780,7 +829,9 @@ func c09Value(c *ctx, seed uint64) {
 			}
 			// every format uncompressed for every value; the (slow: one BestCompression gzip
 			// writer per call) compressed variants and the indented variant for a third each
-			if comp != c09NoComp && !r0.Chance(1, 3) {
+			if sub.allComp && (comp == dsd.GZIP || comp == dsd.AUTO) {
+				b.Count("compressible_roundtrips_attempted", 1)
+			} else if comp != c09NoComp && !r0.Chance(1, 3) {
 				continue
 			}
 			f, comp := f, comp
@@ -952,6 +1003,9 @@ func c09Server() *httptest.Server {
 				w.WriteHeader(http.StatusBadRequest)
 				return
 			}
+			if p := r.Header.Get("X-C09-Preset-Content-Type"); p != "" {
+				w.Header()["Content-Type"] = strings.Split(p, "|") // what a middleware put there earlier
+			}
 			if err := dsd.DumpToHTTPResponse(w, r, v); err != nil {
 				w.Header().Set("X-C09-Dump-Error", err.Error())
 				w.WriteHeader(http.StatusNotAcceptable)
@@ -984,6 +1038,23 @@ func c09HTTP(c *ctx, seed uint64) {
 	acc := c09GenAccept(r)
 	overWire := r.Chance(1, 4)
 	compared := false
+	// Content-Type value(s) already on the response before the dump (a middleware default)
+	var pre []string
+	if r.Bool() {
+		one := func() string {
+			return vlib.Pick(r, "application/json", "application/cbor", "application/msgpack", "application/yaml", "text/html", "text/plain; charset=utf-8", "application/octet-stream", "application/json; charset=utf-8")
+		}
+		pre = []string{one()}
+		for r.Chance(1, 4) {
+			pre = append(pre, one())
+		}
+	}
+	respWhere := func(w string) string {
+		if pre != nil {
+			return w + "-preset-content-type"
+		}
+		return w
+	}
 	// the format in play (classification of dependency findings only, never an oracle)
 	yamlInvolved := func(where string) bool {
 		if strings.HasPrefix(where, "request") {
@@ -1074,6 +1145,10 @@ func c09HTTP(c *ctx, seed uint64) {
 		req := httptest.NewRequest(http.MethodGet, "http://c09.test/x", nil)
 		req.Header.Set("Accept", acc.header)
 		rec := httptest.NewRecorder()
+		if pre != nil {
+			rec.Header()["Content-Type"] = append([]string{}, pre...)
+			b.Count("http_responses_with_preset_content_type", 1)
+		}
 		err := dsd.DumpToHTTPResponse(rec, req, gen())
 		if err != nil {
 			if mustSucceed {
@@ -1099,13 +1174,17 @@ func c09HTTP(c *ctx, seed uint64) {
 		compared = true
 		b.Count("http_roundtrips", 1)
 		b.Seen("http_response_formats", c09Name(lf))
+		cts := resp.Header.Values("Content-Type")
 		switch {
 		case lerr != nil:
-			bad("http-load-error", "response", fmt.Sprintf("LoadFromHTTPResponse(DumpToHTTPResponse(v)) failed for Accept %q: Content-Type sent = %q, body starts %x: %v", acc.header, ct, trunc(body, 12), lerr), map[string]any{"content_type": ct})
+			bad("http-load-error", respWhere("response"), fmt.Sprintf("LoadFromHTTPResponse(DumpToHTTPResponse(v)) failed for Accept %q: Content-Type on the response before the dump %q, sent = %q, body starts %x: %v", acc.header, pre, cts, trunc(body, 12), lerr), map[string]any{"content_type": cts, "preset": pre})
 		case !c09Equal(want, got):
-			bad("http-value-differs", "response", fmt.Sprintf("value differs after DumpToHTTPResponse/LoadFromHTTPResponse (Accept %q, Content-Type %q) at %s", acc.header, ct, c09Diff(reflect.ValueOf(want), reflect.ValueOf(got), "v")), map[string]any{"content_type": ct})
+			bad("http-value-differs", respWhere("response"), fmt.Sprintf("value differs after DumpToHTTPResponse/LoadFromHTTPResponse (Accept %q, Content-Type %q) at %s", acc.header, cts, c09Diff(reflect.ValueOf(want), reflect.ValueOf(got), "v")), map[string]any{"content_type": cts, "preset": pre})
 		}
-		checkCT("response", ct, body)
+		checkCT(respWhere("response"), ct, body)
+		for _, v := range cts[min(1, len(cts)):] { // every value the client sees must name the encoding used
+			checkCT(respWhere("response")+"-further-value", v, body)
+		}
 	})
 
 	// (3) both directions over a real loopback connection
@@ -1124,6 +1203,9 @@ func c09HTTP(c *ctx, seed uint64) {
 				useAccept = req.Header.Get("Accept") // what DumpToHTTPRequest asked for
 			} else {
 				req.Header.Set("Accept", useAccept)
+			}
+			if pre != nil {
+				req.Header.Set("X-C09-Preset-Content-Type", strings.Join(pre, "|"))
 			}
 			resp, err := srv.Client().Do(req)
 			if err != nil {
@@ -1155,13 +1237,17 @@ func c09HTTP(c *ctx, seed uint64) {
 			compared = true
 			b.Count("http_roundtrips", 1)
 			b.Count("http_loopback_roundtrips", 1)
+			cts := resp.Header.Values("Content-Type")
 			switch {
 			case lerr != nil:
-				bad("http-load-error", "response-loopback", fmt.Sprintf("LoadFromHTTPResponse failed over loopback for Accept %q: Content-Type received = %q: %v", useAccept, ct, lerr), map[string]any{"content_type": ct})
+				bad("http-load-error", respWhere("response-loopback"), fmt.Sprintf("LoadFromHTTPResponse failed over loopback for Accept %q: Content-Type on the response before the dump %q, received = %q: %v", useAccept, pre, cts, lerr), map[string]any{"content_type": cts, "preset": pre})
 			case !c09Equal(want, got):
-				bad("http-value-differs", "response-loopback", fmt.Sprintf("echoed value differs (Accept %q, Content-Type %q) at %s", useAccept, ct, c09Diff(reflect.ValueOf(want), reflect.ValueOf(got), "v")), nil)
+				bad("http-value-differs", respWhere("response-loopback"), fmt.Sprintf("echoed value differs (Accept %q, Content-Type %q) at %s", useAccept, cts, c09Diff(reflect.ValueOf(want), reflect.ValueOf(got), "v")), nil)
 			}
-			checkCT("response-loopback", ct, body)
+			checkCT(respWhere("response-loopback"), ct, body)
+			for _, v := range cts[min(1, len(cts)):] {
+				checkCT(respWhere("response-loopback")+"-further-value", v, body)
+			}
 		})
 	}
 	if compared {
